@@ -10,7 +10,7 @@ C14 fairness, part 4: concrete runs.
   move moves infinitely often and every `select` keeps picking the communication: weakly fair, the
   timer and data clauses hold, nobody ever returns.
 -/
-import DosModel.Proofs.PipeFair3
+import DosModel.Proofs.PipeFair4
 import DosModel.Proofs.PipeSucc
 
 namespace Dos.Pipe
@@ -68,6 +68,9 @@ def Run.ofTrace (p : Pipeline) (tr : List Ev) (h : traceOk p tr = true) : Run p 
       rw [traceSt, htr]
       simp only [hs']
       exact nextBy_step hs'
+
+theorem ofTrace_st (p : Pipeline) (tr : List Ev) (h : traceOk p tr = true) :
+    (Run.ofTrace p tr h).st = traceSt p tr := rfl
 
 theorem traceSt_after (p : Pipeline) (tr : List Ev) : ∀ d, traceSt p tr (tr.length + d) = traceSt p tr tr.length := by
   intro d
@@ -316,6 +319,70 @@ theorem spin_never_quiet (i : Nat) : ¬ Quiet fanin (spin.st i) := by
   rcases spin_st_cases i with h | h | h | h <;> rw [h] <;> decide
 
 theorem spin_cancelled : (spin.st 1).ctxDone 0 = true := by decide
+
+/-! ### a hand-off to a collector -/
+
+/-- the creator registers its reply channel (0) with the collector over the hand-off channel (1), or
+    closes it itself when the deadline wins; the collector closes it when the request's context is
+    done (its ticker keeps it turning) -/
+def handoff : Pipeline where
+  name := "demo.handoff"
+  nctx := 1
+  chans := [⟨"reply", 0, false⟩, ⟨"register", 1, true⟩]
+  wgs := []
+  gs := [
+    { name := "creator",
+      nodes := [.sel [.send 1 1, .ctx 0 2], .exit, .close 0 1] },
+    { name := "collector", daemon := true,
+      nodes := [.sel [.recv 1 1 0], .sel [.ctx 0 2, .tick 1], .close 0 0] }]
+  rank := [0, 0]
+
+theorem handoff_wf : W0 handoff = true ∧ SafeOk handoff = true ∧ LiveOk handoff = true ∧
+    handoffs handoff = [(1, 0, 1)] ∧ CollectorsOk handoff = true := by decide +kernel
+
+def handoffTrace : List Ev :=
+  [.act 0 (.send 1), .exit 0, .act 1 (.recvOk 1), .act 1 .tick, .env 0, .act 1 (.ctx 0), .act 1 (.close 0)]
+
+theorem handoffTrace_ok : traceOk handoff handoffTrace = true := by decide +kernel
+
+def handoffRun : Run handoff := Run.ofTrace handoff handoffTrace handoffTrace_ok
+
+theorem handoffRun_fair : Fair handoffRun :=
+  ofTrace_fair handoff handoffTrace handoffTrace_ok (by decide +kernel)
+
+/-- at position 3 the collector holds the reply channel (node 1 is `ownD`-labelled), the channel is
+    open; the context is done at position 5; the channel is closed at position 7 -/
+theorem handoffRun_facts :
+    (handoffRun.st 3).gs[1]? = some (.at 1) ∧ mark (ownD (handoff.gs[1]!) 0 1) 1 = true ∧
+    (handoffRun.st 3).closed 0 = false ∧ (handoffRun.st 5).ctxDone 0 = true ∧
+    (handoffRun.st 7).closed 0 = true := by decide +kernel
+
+/-! ### a channel nobody receives on -/
+
+def lost : Pipeline where
+  name := "demo.lost"
+  nctx := 1
+  chans := [⟨"errc", 0, false⟩]
+  wgs := []
+  gs := [{ name := "stage", nodes := [.sel [.send 0 1], .exit] }]
+  rank := [0]
+
+theorem lost_receiverless : Receiverless lost 0 := by
+  intro gr hgr
+  simp only [lost, List.mem_singleton] at hgr
+  subst hgr
+  decide
+
+def lostRun : Run lost := Run.ofTrace lost [] rfl
+
+/-- events of a run of the regenerated `helper.dosnode.mergeErrors` (two upstream stages 0 1, caller 2,
+    fan-in goroutines 3 4, closer 5; channels: inputs 0 1, merged 2), used as a non-vacuity example in
+    Props/C14Fair.lean -/
+def helperTrace : List Ev :=
+  [.sync 0 3 0, .act 3 (.send 2), .act 2 (.recvOk 2), .env 0,
+   .act 0 (.ctx 0), .act 0 (.close 0), .exit 0, .act 1 (.ctx 0), .act 1 (.close 1), .exit 1,
+   .act 3 (.recvCl 0), .act 3 (.wgDone 0), .exit 3, .act 4 (.recvCl 1), .act 4 (.wgDone 0), .exit 4,
+   .act 5 (.wgWait 0), .act 5 (.close 2), .exit 5, .act 2 (.recvCl 2), .exit 2]
 
 end Demo
 
